@@ -55,7 +55,8 @@ Theorem C03_fetch_spec_partial :
   forall e gs c lo0, fixoid e = true -> cOIdA c = [] ->
     simple_fetch e gs c lo0 =
     Ok (match cS c, cP c, cO c with
-        | Some s, Some p, Some o => flat_map (fetch_rows_spo e c (mkTriple s p o)) gs
+        | Some s, Some p, Some o =>
+            if fixsb e && outside_bounds (update_time_bounds lo0 c) p then [] else flat_map (fetch_rows_spo e c (mkTriple s p o)) gs
         | _, _, _ => flat_map (fetch_rows e c (update_time_bounds lo0 c)) gs
         end).
 Proof. intros. apply fetch_spec; assumption. Qed.
@@ -119,13 +120,6 @@ Theorem C03_oid_unchecked_refuted :
 Proof. exists (w_oid_node_unchecked (current true false)). vm_compute. eexists _, _. repeat split. Qed.
 Print Assumptions C03_oid_unchecked_refuted.
 
-(* a fully specified clause with a temporal predicate is an existence test that ignores the global BEFORE / AFTER /
-   BETWEEN: a row although the triple lies outside the bound (found by the driver-shape x global-bound generator group) *)
-Theorem C03_spec3_global_bounds_refuted :
-  exists q outs row, q_cfg q = current true false /\ run_model q = Ok (outs, [row]) /\ run_spec q = [].
-Proof. exists (w_spec3_global_bounds (current true false)). vm_compute. eexists _, _. repeat split. Qed.
-Print Assumptions C03_spec3_global_bounds_refuted.
-
 (* ---- the defects that were repaired: false of the ORIGINAL tree's model (witnesses replayed on the real planner before the
    repair, see evidence history), true of the current one on the same witness *)
 Theorem C03_join_kind_original_refuted :
@@ -156,3 +150,11 @@ Theorem C03_string_object_original_refuted :
   exists q, run_model (q (original false true)) = Panic SiteStrObject.
 Proof. exists w_string_cell_object. vm_compute. reflexivity. Qed.
 Print Assumptions C03_string_object_original_refuted.
+
+(* repaired (eb88d1d): a fully specified clause with a temporal predicate was an existence test that ignored the global BEFORE /
+   AFTER / BETWEEN (found by the driver-shape x global-bound generator group) *)
+Theorem C03_spec3_global_bounds_original_refuted :
+  exists q, (exists outs row, run_model (q (original true false)) = Ok (outs, [row]) /\ run_spec (q (original true false)) = []) /\
+            (exists outs, run_model (q (current true false)) = Ok (outs, [])).
+Proof. exists w_spec3_global_bounds. vm_compute. split; [eexists _, _; split; reflexivity|eexists; reflexivity]. Qed.
+Print Assumptions C03_spec3_global_bounds_original_refuted.
